@@ -12,9 +12,13 @@
 (*                 by the single worker, WorkerSkipFlush, IdleFlush,       *)
 (*                 WorkerDone                                              *)
 (*   environment   PeerClose, PeerReset (also in the middle of a socket     *)
-(*                 write, see Push), ListenerDown, ListenerUp              *)
+(*                 write, see Push); a peer that STALLS (alive, but not    *)
+(*                 reading: the client's write deadline expires in the     *)
+(*                 middle of a socket write, see Push); ListenerDown,      *)
+(*                 ListenerUp of every collector address independently     *)
 (*   configuration Reconfig: between sends the default license, the queue  *)
-(*                 capacity and the server list change, by assignment to   *)
+(*                 capacity and the server list (a set of collector        *)
+(*                 addresses) change, by assignment to                     *)
 (*                 the exported fields or through ApplyConfig (which drops *)
 (*                 the connection and re-dials when license or servers     *)
 (*                 changed)                                                *)
@@ -22,8 +26,12 @@
 (* A frame is two units: k=1 "a non-empty proper prefix of the frame" and  *)
 (* k=2 "the rest", so that the middle of a frame exists.  A unit carries   *)
 (* the frame header h (project code, license in effect, payload identity). *)
-(* wire[c] is what the peer has READ on connection c; after the peer went  *)
-(* away (net[c] # "up") it never grows.                                    *)
+(* wire[c] is what the peer has READ (or, if it stalled, will have read    *)
+(* when it resumes) on connection c; after the peer went away (net[c] is   *)
+(* "closed" or "reset") it never grows.  A peer that stalled                *)
+(* (net[c] = "stalled") is alive: whatever a client writes to that         *)
+(* connection afterwards still arrives -- the design never does (the       *)
+(* writer's error is sticky until the connection is replaced).             *)
 (*                                                                         *)
 (* Named deviations of the code from the intended design (both allowed):   *)
 (*   D1 SkipCloseOnFlushError -- in direct mode (and SendAndClear) a failed*)
@@ -37,10 +45,11 @@
 EXTENDS Integers, Sequences, FiniteSets
 
 CONSTANTS Sender,      \* calling goroutines
-          MaxFaults,   \* bound on environment faults (PeerClose/PeerReset/cut in a write/ListenerDown/servers pointed away)
+          Addr,        \* collector addresses that exist (each with its own listener)
+          MaxFaults,   \* bound on environment faults (PeerClose/PeerReset/cut or stall in a write/ListenerDown/a collector dropped from the server list)
           MaxCfg       \* bound on configuration changes
 
-VARIABLES conf,      \* [queue: BOOLEAN, qcap: Int, deflic: license, srv: "here" | other, gen: Nat] -- changed only by Reconfig
+VARIABLES conf,      \* [queue: BOOLEAN, qcap: Int, deflic: license, srv: SUBSET Addr (the configured servers), gen: Nat] -- changed only by Reconfig
           lock,      \* holder of the process-wide send lock
           pc,        \* per actor: where it is in its send
           cur,       \* per actor: the pack being sent
@@ -49,9 +58,9 @@ VARIABLES conf,      \* [queue: BOOLEAN, qcap: Int, deflic: license, srv: "here"
           nconn,     \* connections established so far
           wbuf,      \* units in the buffered writer of the current connection
           werr,      \* the writer's sticky error
-          net,       \* per connection: "up" | "closed" | "reset"
+          net,       \* per connection: "up" | "closed" | "reset" | "stalled"
           wire,      \* per connection: units the peer has read
-          listener,  \* "open" | "refusing"
+          listener,  \* per collector address: "open" | "refusing"
           queue,     \* pending packs (queue mode)
           reg,       \* history: id -> [p: pack, rank: acceptance order]
           okset,     \* history: ids whose send returned nil
@@ -68,7 +77,8 @@ NoLic  == "-"
 NoPack == [id |-> 0]
 Worker == "W"
 Actor  == Sender \cup {Worker}
-Here   == "here"      \* conf.srv: the server list names the collector
+\* configured collectors that are listening: a dial succeeds towards any of them, and fails only if there is none
+UpSrv  == {ad \in conf.srv : listener[ad] = "open"}
 
 \* ------------------------------------------------------------------ frames
 EffLic(p) == IF p.lic = NoLic THEN conf.deflic ELSE p.lic
@@ -81,20 +91,28 @@ Conns == 1..nconn
 \* ----------------------------------------------------------- socket write
 (* The writer hands the units `data` to the socket of connection c.  d of  *)
 (* them reach the peer, `ok` is what the writer is told, `kind` is how the *)
-(* peer goes away if it does so before or during this write.               *)
+(* peer goes away (or stalls) if it does so before or during this write.   *)
 (*   healthy connection, nothing goes wrong: everything delivered, ok      *)
 (*   peer already gone: nothing delivered; the kernel may still accept the *)
 (*     bytes (ok = TRUE: FlushIntoDeadPeer, loss NOT detectable) or refuse *)
 (*   peer goes away during the write: a prefix is delivered; ok either way *)
+(*   peer stalls (kind "stalled": it is alive but does not read, the       *)
+(*     kernel's buffers fill and the write deadline of the client          *)
+(*     expires): a prefix is taken by the kernel and will be read when the *)
+(*     peer resumes; the writer is told (a deadline that expired is always *)
+(*     reported).  The connection is still there: bytes a client writes to *)
+(*     it later arrive behind that prefix.                                 *)
 (*   an error means the last byte was not taken: the last unit is not      *)
 (*     delivered completely (a k=1 unit counts as delivered as soon as one *)
 (*     byte of it is)                                                      *)
+Gone(c) == net[c] \in {"closed", "reset"}
 Push(c, data, d, ok, kind) ==
   LET u == Len(data)
       cut == net[c] = "up" /\ (d < u \/ ~ok) IN
   /\ u > 0 /\ d \in 0..u
-  /\ kind \in {"closed", "reset"} /\ (~cut => kind = "closed")   \* kind is meaningful only for a cut
-  /\ net[c] # "up" => d = 0
+  /\ kind \in {"closed", "reset", "stalled"} /\ (~cut => kind = "closed")   \* kind is meaningful only for a cut
+  /\ Gone(c) => d = 0
+  /\ (cut /\ kind = "stalled") => ~ok
   /\ ~ok => (d < u \/ data[u].k = 1)
   /\ cut => faults < MaxFaults
   /\ wire' = [wire EXCEPT ![c] = @ \o SubSeq(data, 1, d)]
@@ -131,16 +149,20 @@ Build(a) ==
 CanDial(a) == \/ pc[a] = "built"
               \/ (a = Worker /\ pc[a] = "idle" /\ (conf.queue \/ lock = None))
 
-ConnectOk(a) ==
-  /\ CanDial(a) /\ conn = 0 /\ listener = "open" /\ conf.srv = Here
+\* a dial goes through the configured servers until one answers: it ends at ANY configured collector that is
+\* listening (the order of preference is the client's business) ...
+ConnectOk(a, ad) ==
+  /\ CanDial(a) /\ conn = 0 /\ ad \in UpSrv
   /\ nconn' = nconn + 1 /\ conn' = nconn + 1
   /\ net' = Append(net, "up") /\ wire' = Append(wire, <<>>)
   /\ wbuf' = <<>> /\ werr' = FALSE          \* a NEW writer: nothing of the old one survives
   /\ streak' = 0
   /\ UNCHANGED <<conf, lock, pc, cur, fr, listener, queue, reg, okset, errset, res, faults>>
 
+\* ... and fails only if NO configured collector is listening: a dial attempt is an attempt at every configured
+\* server ("could not connect to any server")
 ConnectFail(a) ==
-  /\ CanDial(a) /\ conn = 0 /\ (listener = "refusing" \/ conf.srv # Here)
+  /\ CanDial(a) /\ conn = 0 /\ UpSrv = {}
   /\ pc' = [pc EXCEPT ![a] = IF @ = "built" THEN "senderr" ELSE @]
   /\ streak' = 0
   /\ UNCHANGED <<conf, lock, cur, fr, conn, nconn, wbuf, werr, net, wire, listener, queue, reg, okset, errset, res, faults>>
@@ -261,14 +283,15 @@ PeerGoes(c, kind) ==
 PeerClose(c) == PeerGoes(c, "closed")
 PeerReset(c) == PeerGoes(c, "reset")
 
-ListenerDown ==
-  /\ listener = "open" /\ faults < MaxFaults
-  /\ listener' = "refusing" /\ faults' = faults + 1
+\* every collector address has its own listener: they go down and come back independently
+ListenerDown(ad) ==
+  /\ ad \in Addr /\ listener[ad] = "open" /\ faults < MaxFaults
+  /\ listener' = [listener EXCEPT ![ad] = "refusing"] /\ faults' = faults + 1
   /\ UNCHANGED <<conf, lock, pc, cur, fr, conn, nconn, wbuf, werr, net, wire, queue, reg, okset, errset, res, streak>>
 
-ListenerUp ==
-  /\ listener = "refusing"
-  /\ listener' = "open"
+ListenerUp(ad) ==
+  /\ ad \in Addr /\ listener[ad] = "refusing"
+  /\ listener' = [listener EXCEPT ![ad] = "open"]
   /\ UNCHANGED <<conf, lock, pc, cur, fr, conn, nconn, wbuf, werr, net, wire, queue, reg, okset, errset, res, faults, streak>>
 
 \* ---------------------------------------------------------- configuration
@@ -279,16 +302,17 @@ ListenerUp ==
 (* reloaded configuration must re-dial, so that is not prescribed here; what *)
 (* it needs is: the connection is dropped only while no send is in progress  *)
 (* and the writer holds nothing that was accepted and could still be         *)
-(* delivered; a dial succeeds only towards the collector; and from this step *)
+(* delivered; a dial succeeds exactly if a collector of the NEW list is      *)
+(* listening; and from this step                                             *)
 (* on every frame built without a per-send license carries the NEW default   *)
 (* license, and the queue refuses by the NEW capacity.                       *)
-(* Pointing the server list away from the collector is a fault of the        *)
-(* environment (nothing can be delivered while it lasts).                    *)
+(* Dropping a collector from the server list is a fault of the environment   *)
+(* (what is queued for it may not be deliverable any more).                  *)
 Pending == {queue[i].id : i \in 1..Len(queue)} \cup {cur[a].id : a \in {b \in Actor : pc[b] = "locked"}}
 
 Reconfig(via, lic, qcap, srv, closed, dial) ==
-  LET away == srv # Here /\ conf.srv = Here IN
-  /\ via \in {"field", "apply"} /\ dial \in {"none", "ok", "fail"} /\ conf.gen < MaxCfg
+  LET away == ~(conf.srv \subseteq srv) IN
+  /\ via \in {"field", "apply"} /\ dial \in {"none", "ok", "fail"} /\ conf.gen < MaxCfg /\ srv \subseteq Addr
   /\ (closed \/ dial # "none") => /\ via = "apply"
                                   /\ lock = None /\ pc[Worker] = "idle"
   /\ closed => (conn # 0 /\ (wbuf = <<>> \/ werr))
@@ -298,12 +322,12 @@ Reconfig(via, lic, qcap, srv, closed, dial) ==
   /\ reg' = [x \in DOMAIN reg |-> IF x \in Pending THEN [reg[x] EXCEPT !.lics = @ \cup {lic}] ELSE reg[x]]
   /\ faults' = IF away THEN faults + 1 ELSE faults
   /\ CASE dial = "ok" ->
-            /\ srv = Here /\ listener = "open"
+            /\ \E ad \in srv : listener[ad] = "open"
             /\ nconn' = nconn + 1 /\ conn' = nconn + 1
             /\ net' = Append(net, "up") /\ wire' = Append(wire, <<>>)
             /\ wbuf' = <<>> /\ werr' = FALSE /\ streak' = 0
        [] dial = "fail" ->
-            /\ (srv # Here \/ listener = "refusing")
+            /\ \A ad \in srv : listener[ad] = "refusing"
             /\ conn' = 0 /\ streak' = 0
             /\ UNCHANGED <<nconn, net, wire, wbuf, werr>>
        [] OTHER ->
@@ -318,7 +342,7 @@ InitWith(c) ==
   /\ pc = [a \in Actor |-> "idle"] /\ cur = [a \in Actor |-> NoPack] /\ fr = [a \in Actor |-> <<>>]
   /\ res = [a \in Actor |-> "-"]
   /\ conn = 0 /\ nconn = 0 /\ wbuf = <<>> /\ werr = FALSE /\ net = <<>> /\ wire = <<>>
-  /\ listener = "open" /\ queue = <<>>
+  /\ listener = [ad \in Addr |-> "open"] /\ queue = <<>>
   /\ reg = <<>> /\ okset = {} /\ errset = {} /\ faults = 0 /\ streak = 0
 
 \* ------------------------------------------------------------- properties
@@ -330,7 +354,8 @@ MutualExclusion ==
   /\ Cardinality({s \in Sender : pc[s] \in InCS}) <= 1
 
 \* wire[c] is a concatenation of complete frames, followed by a proper prefix of
-\* one frame only if the peer went away or the client is still in the middle of
+\* one frame only if the peer went away or stalled (the cut frame is then the END of
+\* what that connection ever carries) or the client is still in the middle of
 \* that frame on this very connection (its rest is the head of the writer)
 WholeOn(c) ==
   LET w == wire[c] IN
@@ -377,20 +402,22 @@ NoLossSafe ==
      /\ Quiescent => okset \subseteq WholeIds
 
 \* the client re-dials on a later send: at most two completed failed sends
-\* without a dial attempt (one in the intended design, see D1)
+\* without a dial attempt (one in the intended design, see D1).  A dial attempt
+\* covers EVERY configured server (ConnectFail: it fails only if none of them is
+\* listening), whichever of them the client was connected to before.
 Recovers == streak <= 2
 
 \* a fresh connection starts at a frame boundary (nothing of an old writer leaks onto it)
 FreshStart == \A c \in Conns : Len(wire[c]) > 0 => wire[c][1].k = 1
 
-\* the writer's sticky error always stems from a peer that went away: a fresh
+\* the writer's sticky error always stems from a peer that went away or stalled: a fresh
 \* connection has a fresh writer (no error, nothing buffered by an older one)
 WriterErrorJustified == (werr /\ conn # 0) => net[conn] # "up"
 
 TypeOK ==
   /\ lock \in Sender \cup {None}
   /\ conn \in 0..nconn /\ Len(net) = nconn /\ Len(wire) = nconn
-  /\ listener \in {"open", "refusing"}
+  /\ listener \in [Addr -> {"open", "refusing"}] /\ conf.srv \subseteq Addr
   /\ okset \cap errset = {}
 
 \* liveness half (checked under weak fairness of the client's own steps)
